@@ -538,7 +538,8 @@ class SelfPath(Path):
         self.volatile = True
 
     def __str__(self) -> str:
-        return "@" + str(self.path)[1:]
+        env = self.path.env
+        return env.self_token + str(self.path)[len(env.root_token) :]
 
     def _current_node(self, context: FilterContext) -> NodeList:
         """The node list for a query applied to a string.
@@ -625,8 +626,8 @@ class FilterContextPath(Path):
         self.volatile = False
 
     def __str__(self) -> str:
-        path_repr = str(self.path)
-        return "_" + path_repr[1:]
+        env = self.path.env
+        return env.filter_context_token + str(self.path)[len(env.root_token) :]
 
     def evaluate(self, context: FilterContext) -> object:
         return NodeList(
